@@ -177,6 +177,15 @@ def P_rules(rep, flow: Flow, which=("P1", "P2", "P3")):
                 check_term(rep, flow, f, cp, pi, r, term, which)
 
 
+def _evidently_foreign_file(tag):
+    """the file name is a constant, or mentions neither a qubit count nor the connectivity parameter: evidently not the
+    requested table"""
+    k = tag[1]
+    leaves = key_leaves(k)
+    params = [x for x in leaves if x[0] == "param"]
+    return not params or not any(x[1] == "connectivity" for x in params)
+
+
 def check_term(rep, flow, f, cp, pi, r, term, which):
     where = f"{f.module.rel} {f.qualname} return path #{pi}"
     list_params = [p for p in f.params if p in ("measured_qubits", "qubits")]
@@ -188,6 +197,10 @@ def check_term(rep, flow, f, cp, pi, r, term, which):
             gate, arity, files = leaf[1], leaf[2], leaf[3]
             pats = [file_pattern(t) for t in files]
             if arity >= 2 and "P1" in which:
+                if len(pats) == 1 and pats[0] is None and not _evidently_foreign_file(files[0]):
+                    # a file name built in a way the pattern matcher does not know (a helper, another formatting idiom):
+                    # which table it names cannot be decided
+                    raise AnalysisError(f"{where}: two-qubit gate {gate} is read from a file whose name {fmt(files[0][1])[:160]} is outside the recognised patterns: whether it is the requested table cannot be decided")
                 if len(pats) != 1 or pats[0] is None:
                     rep.finding("P1", f"{f.fq}:{gate}:file-pattern", f"{where}: two-qubit gate {gate} read from {files!r}, not from a single table file named kind{{N}}-{{C}}.txt", {"term": t_fmt(term)})
                     continue
